@@ -254,6 +254,13 @@ impl Property for C16 {
                     if unstorable && !e.contains("IndexSizeErr") {
                         obs.label("refused:unstorable-content");
                         if data_of(&node).as_deref() != Some(cur_s.as_str()) {
+                            // the receiver already held data it could not be given today (left there by the unchecked
+                            // delete_data, C15's open finding): the refused call deletes and cannot put back (C13's open
+                            // finding c13.not-atomic.*.receiver-already-held-invalid-data; the same root cause here)
+                            let already = cur_s.contains("]]>") || cur_s.contains('<') || cur_s.contains('&') || (matches!(node, XmlNode::Comment(_)) && (cur_s.contains("--") || cur_s.ends_with('-')));
+                            if already {
+                                fail!("c16.refused-call-changed-data.receiver-already-held-invalid-data".to_string(), format!("step {} {} on {:?}: the call is refused ({}) but the data is now {:?}", step, op, cur_s, e, data_of(&node)));
+                            }
                             fail!(format!("c16.{}.refused-but-changed", kind), format!("step {} {} on {:?}: the call is refused ({}) but the data is now {:?}", step, op, cur_s, e, data_of(&node)));
                         }
                         if len_of(&node) != Some(len) {
